@@ -266,13 +266,20 @@ func (x *Exec) pkgFor(c *Contract, callee *ssa.Function, f *frame) *types.Packag
 
 // havocModifies replaces the designated locations by fresh values.
 func (x *Exec) havocModifies(sc *specCtx, mods []*Clause, st *State) {
+	// every location is resolved in the state before any havoc (elems(*p) means the
+	// backing array *p designated on entry, even when *p itself is in the frame)
+	pre := st.clone()
 	for _, m := range mods {
-		x.havocOne(sc, m.Expr, st)
+		x.havocOneAt(sc.withState(pre), m.Expr, st)
 	}
 }
 
 func (x *Exec) havocOne(sc *specCtx, e ast.Expr, st *State) {
-	sc = sc.withState(st)
+	x.havocOneAt(sc.withState(st), e, st)
+}
+
+// havocOneAt: the location expression is evaluated in sc's state, the havoc applied to st.
+func (x *Exec) havocOneAt(sc *specCtx, e ast.Expr, st *State) {
 	if id, ok := e.(*ast.Ident); ok {
 		if id.Name == "heap" {
 			for k, t := range st.heap {
